@@ -44,7 +44,7 @@ class P(Profile):
     wait_exit = 0.2
     startsecs = (0, 1, 6, 12, 12)
     startretries = (0, 1)
-    fault_ops = ('crash', 'restart', 'crash_target', 'crash_target', 'crash_master', 'boot')
+    fault_ops = ('crash', 'restart', 'crash_target', 'crash_target', 'crash_target', 'crash_target', 'crash_master', 'boot')
     proc_ops = ('exit', 'swallow', 'swallow')
     user_ops = ('rpc_app', 'rpc_app', 'rpc_app')
     op_rate = 0.3
